@@ -816,3 +816,133 @@ func continueAfterEmit(c *an.Ctx, d *an.FuncSrc, br *ast.BranchStmt) bool {
 	}
 	return false
 }
+
+func init() {
+	old := All["C12"].Run
+	All["C12"].Run = func(c *an.Ctx) {
+		old(c)
+		c12parenKept(c)
+		c12scalarsVerbatim(c)
+	}
+	All["C12"].Rules += " R6 R7"
+}
+
+// c12parenKept — C12.R6.  conditionExpr splits the time bounds off a WHERE clause; what is
+// left is printed and re-parsed on the store node.  A parenthesised group whose content was
+// rewritten must stay a group: `a AND (b OR c)` handed back without the ParenExpr prints as
+// `a AND b OR c` and is re-parsed as `(a AND b) OR c`.
+func c12parenKept(c *an.Ctx) {
+	r := c.Rule("C12.R6", "K-CONTRACT", qlPkg+":conditionExpr — the ParenExpr case hands back the group itself or a new ParenExpr around the rewritten content")
+	f := fn(r, qlPkg+":conditionExpr")
+	if f == nil {
+		return
+	}
+	body := f.CaseBody("*influxql.ParenExpr")
+	if body == nil {
+		r.Fail(f.Name+": case", c.P.Pos(f.Body.Pos()), "conditionExpr has no case for *ParenExpr any more")
+		return
+	}
+	g := f.Region(body, "case *ParenExpr")
+	n := 0
+	for _, s := range g.Find(an.AnyReturn()).List {
+		rs := s.Node.(*ast.ReturnStmt)
+		if len(rs.Results) != 3 {
+			continue
+		}
+		n++
+		e := ast.Unparen(rs.Results[0])
+		if an.IsNilIdent(g.Info, e) {
+			continue
+		}
+		if id, ok := e.(*ast.Ident); ok {
+			// the switch variable (the group itself)
+			if t := g.Info.TypeOf(id); t != nil && strings.HasSuffix(t.String(), "influxql.ParenExpr") {
+				continue
+			}
+		}
+		if u, ok := e.(*ast.UnaryExpr); ok && u.Op.String() == "&" {
+			if cl, ok := u.X.(*ast.CompositeLit); ok {
+				if t := g.Info.TypeOf(cl); t != nil && strings.HasSuffix(t.String(), "influxql.ParenExpr") {
+					continue
+				}
+			}
+		}
+		r.Fail(f.Name+": group unwrapped", c.P.Pos(rs.Pos()), "the *ParenExpr case returns %s: the rewritten content of a parenthesised group leaves without its parentheses, so the printed condition re-parses with another precedence on the store node", g.Canon(e))
+	}
+	r.AddSites(n)
+	r.Floor(2, "returns of the ParenExpr case")
+}
+
+// c12scalarsVerbatim — C12.R7.  Scalar options (time bounds, limits, flags) are shipped as
+// they are: the encoder copies the field, the decoder copies the getter, at most through a
+// type conversion.  A value-dependent re-coding (a sentinel for "open end", a clamp) makes
+// two different planned values indistinguishable on the store node unless both sides are
+// changed consistently — and then some value still loses its own encoding.
+func c12scalarsVerbatim(c *an.Ctx) {
+	r := c.Rule("C12.R7", "K-IDENTITY", queryPkg+": encode/decodeProcessorOptions copy every scalar option verbatim (field ↔ getter, type conversions only)")
+	n := 0
+	for _, spec := range []string{queryPkg + ":encodeProcessorOptions", queryPkg + ":decodeProcessorOptions"} {
+		f := fn(r, spec)
+		if f == nil {
+			continue
+		}
+		ast.Inspect(f.Body, func(m ast.Node) bool {
+			cl, ok := m.(*ast.CompositeLit)
+			if !ok {
+				return true
+			}
+			t := f.Info.TypeOf(cl)
+			if t == nil || !strings.HasSuffix(t.String(), "ProcessorOptions") {
+				return true
+			}
+			for _, el := range cl.Elts {
+				kv, ok := el.(*ast.KeyValueExpr)
+				if !ok {
+					continue
+				}
+				vt := f.Info.TypeOf(kv.Value)
+				if vt == nil {
+					continue
+				}
+				b, isBasic := vt.Underlying().(*types.Basic)
+				if !isBasic || b.Info()&(types.IsNumeric|types.IsBoolean) == 0 {
+					continue
+				}
+				n++
+				// peel conversions
+				e := ast.Unparen(kv.Value)
+				for {
+					ce, ok := e.(*ast.CallExpr)
+					if !ok || len(ce.Args) != 1 {
+						break
+					}
+					if tv, ok := f.Info.Types[ce.Fun]; ok && tv.IsType() {
+						e = ast.Unparen(ce.Args[0])
+						continue
+					}
+					break
+				}
+				okShape := false
+				switch x := e.(type) {
+				case *ast.SelectorExpr:
+					okShape = true // opt.Field
+				case *ast.CallExpr:
+					// pb.GetField() / opt.Interval.Duration.Nanoseconds(): a method of the source value without arguments
+					if sel, ok := x.Fun.(*ast.SelectorExpr); ok && len(x.Args) == 0 {
+						_ = sel
+						okShape = true
+					}
+				case *ast.Ident, *ast.BasicLit:
+					okShape = true
+				}
+				if !okShape {
+					key := types.ExprString(kv.Key)
+					r.Fail(f.Name+": "+key+" re-coded", c.P.Pos(kv.Value.Pos()), "%s ships the scalar option %s as %s instead of the value itself: a value-dependent re-coding cannot be inverted for every planned value (e.g. a bound that equals the sentinel)", f.Name, key, f.Canon(kv.Value))
+				}
+			}
+			return true
+		})
+	}
+	r.AddSites(n)
+	r.Floor(40, "scalar options in the encoder and decoder literals")
+}
